@@ -53,6 +53,16 @@ def _alarm(signum, frame):
     raise RunTimeout()
 
 
+def purge_library_modules():
+    """Hermetic runs (VERIF_HERMETIC=1; costs roughly 100 ms per run): whatever the code under test keeps in
+    module-level state (caches, counters, memoised objects) cannot leak from one simulated run into the next when
+    the library is imported afresh for every run.  By default runs share the imported library within a worker
+    process; a violation that depends on such carried-over state does not replay alone, and the runner then tries
+    the other scenarios showing the same kind (the defect usually also shows inside a single scenario)."""
+    for k in [k for k in sys.modules if k == "aiocoap" or k.startswith("aiocoap.") or k == "tests" or k.startswith("tests.")]:
+        del sys.modules[k]
+
+
 def run_one(check, scn, want_events=False):
     """Execute one scenario. Returns a result dict. Never raises for things the
     scenario does; harness problems come back as result['harness_error']."""
@@ -110,6 +120,8 @@ def run_one(check, scn, want_events=False):
             sim.close()
         except Exception:
             pass
+        if os.environ.get("VERIF_HERMETIC") == "1":
+            purge_library_modules()
     return res
 
 
@@ -308,17 +320,34 @@ def check_main(pid, tier, base_seed, jobs=None, budget_s=None, quiet=False):
             if v["kind"] in known_keys:
                 known_hit.setdefault(v["kind"], (scn, v))
             else:
-                unknown.setdefault(v["kind"], (scn, v))
+                unknown.setdefault(v["kind"], [])
+                if len(unknown[v["kind"]]) < 200:
+                    unknown[v["kind"]].append((scn, v))
     exit_code = 0
     lines = []
     for key, (scn, v) in known_hit.items():
         lines.append("KNOWN-FINDING: property=%s %s [%s]" % (pid, known_keys[key]["what"], key))
     reported = 0
-    for key, (scn, v) in list(unknown.items())[:4]:
-        path = minimise.report(check, scn, key, quiet=quiet)
+    for key, cands in list(unknown.items())[:4]:
+        # A run may have been influenced by state the code under test kept from an earlier run in the same worker
+        # process (process-global caches): such a scenario does not reproduce alone.  Try the other scenarios that
+        # showed the same kind before giving up.
+        path = None
+        # alternate between directed/systematic and random scenarios, at most 40 attempts
+        fixed_c = [c for c in cands if not str(c[0].get("origin", "")).startswith("random")]
+        rand_c = [c for c in cands if str(c[0].get("origin", "")).startswith("random")]
+        order = []
+        while (fixed_c or rand_c) and len(order) < 40:
+            if rand_c:
+                order.append(rand_c.pop(0))
+            if fixed_c:
+                order.append(fixed_c.pop(0))
+        for (scn, v) in order:
+            path = minimise.report(check, scn, key, quiet=quiet)
+            if path is not None:
+                break
         if path is None:
-            # could not be confirmed by deterministic replay: harness problem
-            total["harness_errors"].append(("replay", key, "violation did not reproduce on replay: %s" % v))
+            total["harness_errors"].append(("replay", key, "violation did not reproduce on replay (%d scenarios tried): %s" % (len(cands), cands[0][1])))
             continue
         lines.append("VIOLATION property=%s replay=%s" % (pid, path))
         lines.append("  kind=%s detail=%s" % (key, json.dumps(v["detail"])[:400]))
